@@ -566,7 +566,7 @@ func (m *Machine) eval(n *Node, e *env) Val {
 		// only the failure of a call to fit the callee's lambda list is an
 		// expected error of generated programs
 		return m.ignoreArity(a, e)
-	case "defvar":
+	case "defvar", "defconstant":
 		if _, has := m.Globals[a[0].Sym]; !has {
 			m.Globals[a[0].Sym] = m.eval(a[1], e)
 		}
